@@ -42,6 +42,18 @@ CLAIMED["C15"] = dict(
     technique="Lean 4 theorems (failure leaves document, rejection) + correspondence vs executable Lean RFC 6902 Spec",
     design="§5 C15")
 
+CLAIMED["C04"] = dict(
+    text="Lean 4 proofs about step-for-step models of dec_to_integer, from_integer, the parser's integer classification and basic_bigint's "
+         "+= / -= limb loops (64-bit wrap-around explicit): integer literals parse exactly or report out-of-range at both 64-bit boundaries, stored "
+         "integers print as their exact digits and parse back (incl. INT64_MIN), out-of-range literals are kept digit for digit, bigint addition and "
+         "subtraction are exact for all carries/borrows. Doubles (shortest <= 17 digit printing that parses back; correctly rounded parsing), bigint "
+         "* / % shifts and radix/byte conversions are decided per case against exact Python arithmetic on boundary-directed inputs (every power of "
+         "two, powers of ten +-1ulp, midpoints, limb edge values).",
+    note="Partial: Grisu3/snprintf digit generation, strtod/from_chars, bigint multiplication/division/shifts are validated per case (Python int / "
+         "correctly rounded float() as oracle), not proved. Trusted: models, harness, Python arithmetic.",
+    technique="Lean 4 theorems (exact integer parse/print, bigint add/sub loops) + correspondence + exact-arithmetic oracle",
+    design="§5 C04")
+
 ALL = ["C%02d" % i for i in range(1, 21)]
 NOT_YET = "not claimed yet: the Lean model, theorems and correspondence harness for this property are still being built (see DESIGN.md §8 staging)"
 
